@@ -25,7 +25,22 @@ def _B():
     return C16
 
 
+_SEQ = {}
+
+
+def reset():
+    _SEQ.clear()
+
+
+def _cycle(key, xs):
+    """Deterministic round-robin over the sizes of a family, so every threshold is crossed in every run."""
+    j = _SEQ[key] = _SEQ.get(key, -1) + 1
+    return xs[j % len(xs)]
+
+
 def _k(kind, cls, **kw):
+    if "-W-" in cls:
+        kw.setdefault("timeout", 150)      # deliberately heavy instances: the guard only has to cut real hangs
     return {"kind": kind, "cls": cls, **kw}
 
 
@@ -34,7 +49,7 @@ def gen_knap_r3(rng, fam, thorough=False):
     B = _B()
     mz = rng.random() < 0.3
     if fam == "W-items":
-        n = rng.choice([4099, 10**4] + ([10**5, 2**20 + 2] if thorough else [4097, 5000]))
+        n = _cycle("knap-W-items", [10001, 4099, 4097] + ([10**5 + 1, 2**20 + 2] if thorough else []))
         cap = rng.randint(1, 3)
         weights = [0 if rng.random() < 0.01 else rng.randint(1, 4) for _ in range(n)]
         values = [rng.randint(0, 9) - (rng.choice([0, 0, 4]) if mz else 0) for _ in range(n)]
@@ -97,7 +112,7 @@ def gen_knap_r3(rng, fam, thorough=False):
         values = [big, -big] + [float(rng.choice([1, -1, 3, -2, 0.5])) for _ in range(n - 2)]
         rng.shuffle(values)
         weights = [rng.randint(0, 3) for _ in range(n)]
-        return _k("knap", "r3-X-cancel", values=values, weights=weights, capacity=rng.randint(0, 6), minimize=rng.random() < 0.6)
+        return _k("knap", "r3-X-cancel", values=values, weights=weights, capacity=rng.randint(0, 6), minimize=rng.random() < 0.6, x=True)
     if fam == "X-overflow":
         n = rng.randint(2, 5)
         values = [rng.choice([1e308, 8e307, 1.7e308, 5e307, 3.0]) for _ in range(n)]
@@ -139,13 +154,13 @@ def gen_bin_r3(rng, fam, thorough=False):
     B = _B()
     algo = rng.choice(B.MAIN_ALGOS)
     if fam == "W-items":
-        n = rng.choice([4099, 10**4] + ([10**5, 2**20 + 2] if thorough else [4097]))
-        cap = 1000 if n <= 10**5 else 10**5
-        c = _k("bin", "r3-W-items", sizes=[1] * n, capacity=cap, algorithm=algo if n <= 10**5 else rng.choice(["first-fit", "first-fit-decreasing"]))
+        n = _cycle("bin-W-items", [10001, 4099] + ([10**5 + 1, 2**20 + 2] if thorough else []))
+        cap = 1000 if n <= 10**5 + 1 else 10**5
+        c = _k("bin", "r3-W-items", sizes=[1] * n, capacity=cap, algorithm=algo if n <= 10**5 + 1 else rng.choice(["first-fit", "first-fit-decreasing"]))
         c["expect_k"] = -(-n // cap)
         return c
     if fam == "W-bins":
-        k = 4100 if not thorough else rng.choice([4100, 6000])
+        k = 4100 if not thorough else rng.choice([4100, 4500])
         cap = rng.choice([10, 1000, 2**31])
         sizes = [cap - 1] * k + [1] * k
         if rng.random() < 0.5:          # the decreasing variants sort this themselves; the plain ones need the order as given
@@ -179,7 +194,7 @@ def gen_bin_r3(rng, fam, thorough=False):
         if rng.random() < 0.4:
             for i in range(0, n - 1, 2):
                 sizes[i + 1] = u * M - sizes[i]
-        return _k("bin", "r3-X-big", sizes=sizes, capacity=u * M, algorithm=algo)
+        return _k("bin", "r3-X-big", sizes=sizes, capacity=u * M, algorithm=algo, x=True)
     if fam == "X-nonfinite":
         c = B.gen_bin(rng, "int")
         if not c["sizes"]:
@@ -219,8 +234,8 @@ def gen_bin_r3(rng, fam, thorough=False):
 
 #            family, quick, thorough
 R3_KNAP = [("W-items", 3, 8), ("W-cols", 1, 3), ("W-cells", 1, 2), ("W-selected", 2, 6), ("W-fallback", 1, 2), ("A2", 60, 800),
-           ("X-cancel", 20, 300), ("X-overflow", 16, 200), ("X-nonfinite", 24, 300), ("X-negzero", 24, 300), ("X-intfloat", 24, 300)]
-R3_BIN = [("W-items", 2, 6), ("W-bins", 1, 4), ("A2", 60, 800), ("X-big", 20, 300), ("X-nonfinite", 24, 300), ("X-negzero", 24, 300),
+           ("X-cancel", 6, 40), ("X-overflow", 6, 40), ("X-nonfinite", 10, 60), ("X-negzero", 24, 300), ("X-intfloat", 24, 300)]
+R3_BIN = [("W-items", 2, 6), ("W-bins", 1, 4), ("A2", 60, 800), ("X-big", 6, 40), ("X-nonfinite", 10, 60), ("X-negzero", 24, 300),
           ("X-intfloat", 24, 300)]
 
 
